@@ -226,17 +226,54 @@ def or_leaves(t):
     return out
 
 
-def spec_names(leaves):
-    """documented naming: declared %field, else :type name, first occurrence wins; otherwise `<prim>_<index>`"""
-    seen, out = set(), []
+def first_pass_names(leaves):
+    """the names before fixes/C12-1 (pinned tree): declared %field, else :type name, first occurrence wins; otherwise
+    `<prim>_<index>` whatever the declared names are.  -> (names, generated?, any declared)"""
+    seen, out, gen = set(), [], []
     for i, (_, a) in enumerate(leaves):
         key = a[1][0] if a[1][0] is not None else a[1][1]
         if key is not None and key not in seen:
             seen.add(key)
             out.append(key)
+            gen.append(False)
         else:
             out.append(f'{prim(a)}_{i}')
-    return out, bool(seen)
+            gen.append(True)
+    return out, gen, bool(seen)
+
+
+def spec_names(leaves):
+    """documented naming: a declared %field (else :type) name is kept at its first occurrence; every other leaf gets
+    `<prim>_<index>`, lengthened by as many `_` as it takes to differ from all declared names of the node and from the
+    names generated for earlier leaves (stated on its own: shortest free candidate, not the loop of the source)"""
+    cand, gen, named = first_pass_names(leaves)
+    used = {n for n, g in zip(cand, gen) if not g}
+    out = []
+    for n, g in zip(cand, gen):
+        if g:
+            n = next(n + '_' * k for k in range(len(used) + 1) if n + '_' * k not in used)
+            used.add(n)
+        out.append(n)
+    return out, named
+
+
+def node_leaves(t):
+    return pair_leaves(t) if t[0] == 'p' else or_leaves(t)
+
+
+def former_collisions(t):
+    """the pinned tree's name collisions of a pair / union node: [(kind, where)] with kind 'pair' | 'or' and where =
+    'declared-before' | 'declared-after' (position of the declared name relative to the leaf whose generated name it equals)"""
+    cand, gen, named = first_pass_names(node_leaves(t))
+    if t[0] == 'p' and not named:
+        return []
+    out = []
+    for i, (n, g) in enumerate(zip(cand, gen)):
+        if g:
+            for j, (m, h) in enumerate(zip(cand, gen)):
+                if not h and m == n:
+                    out.append(('pair' if t[0] == 'p' else 'or', 'declared-before' if j < i else 'declared-after'))
+    return out
 
 
 def node_names(t):
@@ -275,19 +312,14 @@ def has_pair(t):
 
 
 def excluded(t, cmp=False, unit_hashable=True, pair_lt_lex=True):
-    """list of (class, node) reasons why values of t need not convert back (independent statement of PyInvertible)"""
+    """list of (class, node) reasons why values of t need not convert back (independent statement of PyInvertible);
+    field names are no reason: they have to be unique for every type"""
     out = []
     k = t[0]
     if k == 'p':
-        names = node_names(t)
-        if not cmp and names is not None and len(set(names)) != len(names):
-            out.append(('field-name-collision', t))
         for _, a in pair_leaves(t):
             out += excluded(a, cmp, unit_hashable, pair_lt_lex)
     elif k == 'o':
-        names = node_names(t)
-        if len(set(names)) != len(names):
-            out.append(('field-name-collision', t))
         for _, a in or_leaves(t):
             out += excluded(a, cmp, unit_hashable, pair_lt_lex)
     elif k == 'O':
@@ -405,26 +437,69 @@ def rand_type(rng, depth, p_field=0.5, p_type=0.15, storage=True):
     return ('b', NOANN, kt, vt)
 
 
-def lookalike(rng, t):
-    """rename one declared name of a pair / union node to the generated name of another leaf (or vice versa)"""
-    if t[0] not in 'po':
-        return t
-    leaves = pair_leaves(t) if t[0] == 'p' else or_leaves(t)
-    if len(leaves) < 2:
-        return t
-    i, j = rng.sample(range(len(leaves)), 2)
-    target = f'{prim(leaves[j][1])}_{j}'
-    path = leaves[i][0]
+def layout_nodes(t, path=(), parent=None):
+    """(path, node) of the pair / union nodes of t that compute a layout of their own: a pair that is not flattened into
+    a pair above it, a union that is not a branch of a union"""
+    if (t[0] == 'p' and not (parent == 'p' and is_flat_pair(t))) or (t[0] == 'o' and parent != 'o'):
+        yield path, t
+    for i, a in enumerate(args(t)):
+        yield from layout_nodes(a, path + (i,), t[0])
 
-    def rename(n, p):
+
+def lookalike(rng, t):
+    """make a pair / union node of t (the root or, half of the time, a node inside it) a former collision shape: one
+    leaf gets as declared name the name another leaf (earlier or later in the layout) would be generated — `prim_j`;
+    sometimes as a :type name, sometimes with a third leaf declaring `prim_j_` (the first way out of the collision)"""
+    nodes = [(path, n) for path, n in layout_nodes(t) if len(node_leaves(n)) >= 2]
+    if not nodes:
+        return t
+    where, node = nodes[0] if (nodes[0][0] == () and rng.random() < 0.5) else rng.choice(nodes)
+    leaves = node_leaves(node)
+    plain = [x for x in range(len(leaves)) if leaves[x][1][0] != 'p']     # an unnamed pair is not a leaf
+    if not plain:
+        return t
+    j = rng.choice(plain)                                   # the leaf whose name is generated
+    i = rng.choice([x for x in range(len(leaves)) if x != j])   # the leaf that declares that name: i < j before, i > j after
+    target = f'{prim(leaves[j][1])}_{j}'
+    style = rng.randrange(10)
+
+    def set_name(n, p, name, as_type=False):
         if not p:
-            return with_ann(n, (target, n[1][1]) if rng.random() < 0.8 else (None, target))
+            return with_ann(n, (None, name) if as_type else (name, n[1][1]))
         ch = list(n[2:])
-        ch[int(p[0])] = rename(ch[int(p[0])], p[1:])
+        ch[int(p[0])] = set_name(ch[int(p[0])], p[1:], name, as_type)
         return (n[0], n[1]) + tuple(ch)
-    t2 = rename(t, path)
-    # the renamed leaf must stay a leaf of the same node (a named pair stops flattening)
-    return t2
+
+    node2 = with_ann_at(node, leaves[j][0], NOANN)
+    node2 = set_name(node2, leaves[i][0], target, as_type=(style == 0))
+    if style in (1, 2) and len(leaves) >= 3:
+        k = rng.choice([x for x in range(len(leaves)) if x not in (i, j)])
+        node2 = set_name(node2, leaves[k][0], target + '_')
+    if [p_ for p_, _ in node_leaves(node2)] != [p_ for p_, _ in leaves]:
+        return t                                             # the leaf set changed
+    return replace_at(t, where, node2)
+
+
+def with_ann_at(n, p, ann):
+    if not p:
+        return with_ann(n, ann)
+    ch = list(n[2:])
+    ch[int(p[0])] = with_ann_at(ch[int(p[0])], p[1:], ann)
+    return (n[0], n[1]) + tuple(ch)
+
+
+def subterm_paths(t, path=()):
+    yield path, t
+    for i, a in enumerate(args(t)):
+        yield from subterm_paths(a, path + (i,))
+
+
+def replace_at(t, path, new):
+    if not path:
+        return new
+    ch = list(t[2:])
+    ch[path[0]] = replace_at(ch[path[0]], path[1:], new)
+    return (t[0], t[1]) + tuple(ch)
 
 
 def rand_value(rng, t, size=3):
